@@ -335,6 +335,11 @@ class PathEnumerator:
                 tgt = self.ev.model.lookup_symbol(fr.module, v.func.id)
                 if isinstance(tgt, FunctionInfo) and is_private_helper(tgt):
                     d, info = tgt.node, tgt
+                elif isinstance(tgt, FunctionInfo) and tgt.kind == "function" and tgt.module is fr.fn.module and tgt is not fr.fn \
+                        and isinstance(st, (ast.Assign, ast.AnnAssign)) and self._extended_here(st, fr):
+                    # ``c = other_builder(...)`` followed by ``c.add(...)``: this function continues building what the other one started;
+                    # the other builder's steps are part of this one's
+                    d, info = tgt.node, tgt
         elif isinstance(v.func, ast.Attribute) and self.inline_private and v.func.attr.startswith("_") and not v.func.attr.startswith("__"):
             try:
                 base = self.ev.expr(v.func.value, self._frame(fr, p))
@@ -364,6 +369,16 @@ class PathEnumerator:
         if d.args.vararg or d.args.kwarg or any(isinstance(n, (ast.Yield, ast.YieldFrom, ast.Nonlocal)) for n in ast.walk(d)):
             return None
         return v, d, info, self_term, self_cls
+
+    def _extended_here(self, st: ast.stmt, fr: Frame) -> bool:
+        tg = st.targets[0] if isinstance(st, ast.Assign) else st.target
+        if not isinstance(tg, ast.Name) or fr.fn is None:
+            return False
+        for n in ast.walk(fr.fn.node):
+            if isinstance(n, ast.Call) and isinstance(n.func, ast.Attribute) and n.func.attr in ("add", "add_operation", "add_sub_circuit") \
+                    and isinstance(n.func.value, ast.Name) and n.func.value.id == tg.id and n.lineno > st.lineno:
+                return True
+        return False
 
     def _inline_local(self, st: ast.stmt, found, p: Path, fr: Frame) -> List[Path]:
         """Run the helper's body in place.  Closure: free variables are read from the environment at the time of the call (late binding);
@@ -501,6 +516,25 @@ class PathEnumerator:
             live = nxt
         return [r for _, r in done] + live
 
+    def _unrolled_terms(self, st: ast.For, items: List[Term], p: Path, fr: Frame) -> List[Path]:
+        live, done = [p], []
+        for v in items:
+            nxt: List[Path] = []
+            for q in live:
+                f = self._frame(fr, q)
+                self._assign(st.target, v, q, f, st)
+                for r in self.block(st.body, [q], fr):
+                    if r.exit in ("fall", "continue"):
+                        r.exit, r.exit_node = "fall", None
+                        nxt.append(r)
+                    elif r.exit == "break":
+                        r.exit, r.exit_node = "fall", None
+                        done.append(r)
+                    else:
+                        done.append(r)
+            live = nxt
+        return done + live
+
     def _loop(self, st, p: Path, fr: Frame) -> List[Path]:
         ev = self.ev
         f = self._frame(fr, p)
@@ -516,6 +550,12 @@ class PathEnumerator:
             return self._unrolled(st, p, fr)
         if isinstance(st, ast.For):
             it = ev.expr(st.iter, f)
+            if self.unroll_literal_loops and it[0] == "var" and not st.orelse:
+                # a local list whose elements are fixed on this path (filled by appends of displays): the loop is the straight-line code
+                from .listflow import concrete_list
+                items = concrete_list(p, it)
+                if items is not None and 0 < len(items) <= 8 and all(x[0] in ("tuple", "list", "new", "const", "fn", "enum", "lin") for x in items):
+                    return self._unrolled_terms(st, items, p, fr)
             mapped = None
             if it[0] == "comp" and it[1] == "gen" and len(it[3]) == 1:
                 # ``for y in (f(x) for x in D if c)``: range over D, y = f(x), body only where c
